@@ -186,9 +186,18 @@ def cviart_gate(rng):
             touched.append((extra["index"], int(c_)))
         calls.append((extra["index"], int(c_), bool(r), step_labs[extra["index"]], len(est.W)))
         return r
-    est.CVI_match = wrapped
     summ = {"estimator": "CVIART(DualVigilanceART(FuzzyART))" if nest else "CVIART(FuzzyART)", "validity": validity, "rho": rho,
             "rho_lower_bound": float(base.rho_lower_bound) if nest else None, "X": X.tolist()}
+    if rng.random() < 0.4:
+        # the gate of a fit on a USED estimator (fitted before on other rows) is judged like any other
+        X0 = np.array(B.grid_rows(rng, rng.randrange(3, 8), d), dtype=float)
+        summ["fitted_before_on"] = X0.tolist()
+        try:
+            with np.errstate(all="ignore"):
+                est.fit(X0)
+        except Exception:
+            return None
+    est.CVI_match = wrapped
     try:
         with np.errstate(all="ignore"):
             est.fit(X)
